@@ -80,6 +80,16 @@ pub fn mat_to_svec(n: usize, m: &[f64]) -> Vec<f64> {
 /// Returns (margin, scale) with scale = max |v_i| (>= tiny).
 pub fn margin(c: &ConeT, v: &[f64], dual: bool) -> (f64, f64) {
     let scale = v.iter().fold(0.0f64, |m, x| m.max(x.abs())).max(1e-300);
+    // every margin below is positively homogeneous of degree one; far outside the range where squares and
+    // products are representable (|v| < 1e-100 or > 1e100) the point is first scaled by an exact power of two
+    let raw = v.iter().fold(0.0f64, |m, x| m.max(x.abs()));
+    if raw > 0.0 && raw.is_finite() && !(1e-100..=1e100).contains(&raw) {
+        let k = (scale.log2().floor() as i32).clamp(-1000, 1000);
+        let f = 2f64.powi(-k);
+        let vs: Vec<f64> = v.iter().map(|x| x * f).collect();
+        let (m, _) = margin(c, &vs, dual);
+        return (m / f, scale);
+    }
     let m = match c {
         ZeroConeT(_) => {
             if dual {
